@@ -13,6 +13,7 @@ import (
 	"verifharness/c06"
 	"verifharness/c07"
 	"verifharness/c09"
+	"verifharness/c10"
 	"verifharness/c12"
 	"verifharness/c15"
 	"verifharness/c16"
@@ -39,6 +40,7 @@ var gens = map[string][]genFunc{
 	"C20": {c20.Gen},
 	"C15": {c15.Gen},
 	"C06": {c06.Gen},
+	"C10": {c10.Gen},
 	"C18": {c18.Gen},
 	"C16": {c16.Gen},
 	"C09": {c09.Gen},
@@ -50,6 +52,7 @@ var gens = map[string][]genFunc{
 var customImpl = map[string]func(){
 	"C15": c15.Impl,
 	"C06": c06.Impl,
+	"C10": c10.Impl,
 	"C18": c18.Impl,
 	"C16": c16.Impl,
 	"C09": c09.Impl,
